@@ -61,12 +61,19 @@ theorem fs0_NL (fs : FS) (srcDir : Path) (pfx : Nat)
       · intro t ht
         exact hfs q _ (lookup_mem ht) (List.isPrefixOf_iff_prefix.mpr hc) t rfl
 
-theorem writeThrough_notSym (s : FS) (fuel : Nat) (p : Path) (c : Nat) (h : NotSym (lookup s p)) :
+theorem writeThrough_notSym (s : FS) (fuel : Nat) (p : Path) (c : Nat) (h : NotSym (lookup s p))
+    (hd : lookup s p ≠ some .dir) :
     writeThrough s (fuel + 1) p c = set s p (.file c) := by
   simp only [writeThrough]
   split
   · rename_i t ht; exact absurd ht (h t)
+  · rename_i hdir; exact absurd hdir hd
   · rfl
+
+/-- EISDIR: opening a directory for writing fails and nothing is written -/
+theorem writeThrough_dir (s : FS) (fuel : Nat) (p : Path) (c : Nat) (hd : lookup s p = some .dir) :
+    writeThrough s (fuel + 1) p c = s := by
+  simp only [writeThrough, hd]
 
 theorem dir_prefix_marker (srcDir : Path) (pfx : Nat) :
     srcDir ++ [pfx] <+: markerPath srcDir pfx := dir_prefix srcDir pfx [0]
@@ -95,24 +102,6 @@ theorem loop_outside (k : Nat) (q : Path) (hq : ¬ srcDir ++ [pfx] <+: q) :
     lookup (unpackEntries (fs0 fs srcDir pfx) srcDir pfx ar k).1 q = lookup fs q := by
   rw [(loop_rel fs srcDir pfx ar hk hfs hcanon k).1.outside q hq, fs0_outside _ _ _ _ hq]
 
-theorem loop_write_marker (k : Nat) :
-    writeThrough (unpackEntries (fs0 fs srcDir pfx) srcDir pfx ar k).1 8 (markerPath srcDir pfx) 1 =
-    set (unpackEntries (fs0 fs srcDir pfx) srcDir pfx ar k).1 (markerPath srcDir pfx) (.file 1) :=
-  writeThrough_notSym _ 7 _ _
-    ((loop_rel fs srcDir pfx ar hk hfs hcanon k).2 _ (markerPath_ne_nil _ _)
-      (Or.inr (src_prefix_marker _ _)))
-
-theorem unpackPackage_outside (ca : Option Nat) (q : Path) (hq : ¬ srcDir ++ [pfx] <+: q) :
-    lookup (unpackPackage fs srcDir pfx ar ca) q = lookup fs q := by
-  rw [unpackPackage_eq]
-  split
-  · rw [loop_write_marker fs srcDir pfx ar hk hfs hcanon, lookup_set]
-    have : q ≠ markerPath srcDir pfx := by
-      intro h; subst h; exact hq (dir_prefix_marker _ _)
-    rw [if_neg this]
-    exact loop_outside fs srcDir pfx ar hk hfs hcanon _ q hq
-  · exact loop_outside fs srcDir pfx ar hk hfs hcanon _ q hq
-
 /-- no processed entry writes a file at the completion marker (the archive's own marker entry is
 skipped): the marker path is absent or, at most, a directory -/
 theorem loop_marker (k : Nat) :
@@ -132,6 +121,38 @@ theorem loop_marker (k : Nat) :
     have := List.append_cancel_left heq
     exact hne this.symm
 
+/-- the marker is written unless a directory sits at the marker path -/
+theorem loop_write_marker (k : Nat)
+    (hnd : lookup (unpackEntries (fs0 fs srcDir pfx) srcDir pfx ar k).1 (markerPath srcDir pfx) ≠ some .dir) :
+    writeThrough (unpackEntries (fs0 fs srcDir pfx) srcDir pfx ar k).1 8 (markerPath srcDir pfx) 1 =
+    set (unpackEntries (fs0 fs srcDir pfx) srcDir pfx ar k).1 (markerPath srcDir pfx) (.file 1) :=
+  writeThrough_notSym _ 7 _ _
+    ((loop_rel fs srcDir pfx ar hk hfs hcanon k).2 _ (markerPath_ne_nil _ _)
+      (Or.inr (src_prefix_marker _ _))) hnd
+
+omit hk hfs hcanon in
+/-- ... and with a directory there (an entry below `<prefix>/.cargo-ok` made `create_dir_all`
+create it) the open fails and the tree stays as it is -/
+theorem loop_write_marker_dir (k : Nat)
+    (hd : lookup (unpackEntries (fs0 fs srcDir pfx) srcDir pfx ar k).1 (markerPath srcDir pfx) = some .dir) :
+    writeThrough (unpackEntries (fs0 fs srcDir pfx) srcDir pfx ar k).1 8 (markerPath srcDir pfx) 1 =
+    (unpackEntries (fs0 fs srcDir pfx) srcDir pfx ar k).1 :=
+  writeThrough_dir _ 7 _ _ hd
+
+theorem unpackPackage_outside (ca : Option Nat) (q : Path) (hq : ¬ srcDir ++ [pfx] <+: q) :
+    lookup (unpackPackage fs srcDir pfx ar ca) q = lookup fs q := by
+  rw [unpackPackage_eq]
+  split
+  · rcases loop_marker fs srcDir pfx ar hk hfs hcanon (ca.getD ar.length) with hm | hm
+    · rw [loop_write_marker fs srcDir pfx ar hk hfs hcanon _ (by rw [hm]; simp), lookup_set]
+      have : q ≠ markerPath srcDir pfx := by
+        intro h; subst h; exact hq (dir_prefix_marker _ _)
+      rw [if_neg this]
+      exact loop_outside fs srcDir pfx ar hk hfs hcanon _ q hq
+    · rw [loop_write_marker_dir fs srcDir pfx ar _ hm]
+      exact loop_outside fs srcDir pfx ar hk hfs hcanon _ q hq
+  · exact loop_outside fs srcDir pfx ar hk hfs hcanon _ q hq
+
 theorem fetchIsOk_crashed (k : Nat) :
     fetchIsOk (unpackPackage fs srcDir pfx ar (some k)) srcDir pfx = false := by
   have hup : unpackPackage fs srcDir pfx ar (some k) =
@@ -149,13 +170,14 @@ theorem fetchIsOk_crashed (k : Nat) :
   · rfl
 
 theorem fetchIsOk_complete (hlen : srcDir.length + 2 < 64)
-    (hall : (unpackEntries (fs0 fs srcDir pfx) srcDir pfx ar ar.length).2 = true) :
+    (hall : (unpackEntries (fs0 fs srcDir pfx) srcDir pfx ar ar.length).2 = true)
+    (hnd : lookup (unpackEntries (fs0 fs srcDir pfx) srcDir pfx ar ar.length).1 (markerPath srcDir pfx) ≠ some .dir) :
     fetchIsOk (unpackPackage fs srcDir pfx ar none) srcDir pfx = true := by
   have hup : unpackPackage fs srcDir pfx ar none =
       set (unpackEntries (fs0 fs srcDir pfx) srcDir pfx ar ar.length).1 (markerPath srcDir pfx) (.file 1) := by
     rw [unpackPackage_eq]
     simp only [Option.getD_none, hall, Option.isNone_none, Bool.and_self, if_true]
-    exact loop_write_marker fs srcDir pfx ar hk hfs hcanon _
+    exact loop_write_marker fs srcDir pfx ar hk hfs hcanon _ hnd
   rw [hup]
   have hrel := loop_rel fs srcDir pfx ar hk hfs hcanon ar.length
   have hgood := (good_of_canon fs srcDir hcanon).1
@@ -182,6 +204,26 @@ theorem fetchIsOk_complete (hlen : srcDir.length + 2 < 64)
   unfold fetchIsOk
   rw [hc]
   simp [lookup_set]
+
+/-- the hypothesis `hnd` of `fetchIsOk_complete` is necessary: with a directory at the marker path
+the marker is not written and the complete unpack is not considered fetched -/
+theorem fetchIsOk_complete_dir
+    (hall : (unpackEntries (fs0 fs srcDir pfx) srcDir pfx ar ar.length).2 = true)
+    (hd : lookup (unpackEntries (fs0 fs srcDir pfx) srcDir pfx ar ar.length).1 (markerPath srcDir pfx) = some .dir) :
+    fetchIsOk (unpackPackage fs srcDir pfx ar none) srcDir pfx = false := by
+  have hup : unpackPackage fs srcDir pfx ar none =
+      (unpackEntries (fs0 fs srcDir pfx) srcDir pfx ar ar.length).1 := by
+    rw [unpackPackage_eq]
+    simp only [Option.getD_none, hall, Option.isNone_none, Bool.and_self, if_true]
+    exact loop_write_marker_dir fs srcDir pfx ar _ hd
+  rw [hup]
+  unfold fetchIsOk
+  split
+  · rename_i r hr
+    have := canon_of_NL (loop_rel fs srcDir pfx ar hk hfs hcanon ar.length).2 [pfx, 0] r hr
+    subst this
+    simp only [markerPath] at hd; rw [hd]; rfl
+  · rfl
 
 theorem fs0_crashed_equiv (k : Nat) :
     Equiv (fs0 (unpackPackage fs srcDir pfx ar (some k)) srcDir pfx) (fs0 fs srcDir pfx) := by
